@@ -59,7 +59,7 @@ CHECKS = {
          "_strtobool: for every string of any length each path's outcome equals the case-insensitive specification (cvc5 str.to_lower + regular expressions; non-ASCII closed by a table over all code points; a finite table of 100 spellings runs alongside and is all that is left when the translator cannot encode a rewritten parser). _get_backend_by_name: every string <= 15 chars (CrossHair). Environment x importable modules x flags, precedence of per-call argument over config, never-native for acyclic, and which class/entry point receives a solve are finite tables run completely (labelled, no solver).",
          "cvc5 1.0.3; CrossHair; tables are exhaustive over their stated finite domains", "2/C20"),
  "C11": (TV, "A", "SMT set equality (exists-forall) between the program posted by each solve_<puzzle> and a rule specification, per enumerated instance; reported facts checked by SMT on the rules",
-         "24 of the 26 modules named by the property have a rule specification written from the published rules (sudoku, slitherlink, masyu, yajilin, nurikabe, heyawake, akari, norinori, star_battle, fillomino, nurimisaki, yinyang, creek, gokigen, aquarium, building, doppelblock, putteria, geradeweg, compass, lits, castle_wall, view, fivecells). Per instance z3 decides over ALL candidate answer grids and all auxiliaries that the posted program admits exactly the rule-obeying grids, and that the returned is_sat / decided / undecided cells are exactly what the rules force. Instances (board shape + clue layout) are enumerated, not symbolic: that is the bound; they include every room layout of the small boards for the room puzzles, options (checkered fillomino), and the same instance after another instance of the same size was solved in the process (each instance runs in its own forked child). simpleloop (generator device) and shakashaka are not covered.",
+         "25 of the 26 modules named by the property have a rule specification written from the published rules (sudoku, slitherlink, masyu, yajilin, nurikabe, heyawake, akari, norinori, star_battle, fillomino, nurimisaki, yinyang, creek, gokigen, aquarium, building, doppelblock, putteria, geradeweg, compass, lits, castle_wall, view, fivecells, shakashaka). Per instance z3 decides over ALL candidate answer grids and all auxiliaries that the posted program admits exactly the rule-obeying grids, and that the returned is_sat / decided / undecided cells are exactly what the rules force. Instances (board shape + clue layout) are enumerated, not symbolic: that is the bound; they include every room layout of the small boards for the room puzzles, options (checkered fillomino), and the same instance after another instance of the same size was solved in the process (each instance runs in its own forked child). simpleloop (generator device: its pivot parameter has no published rule) is not covered.",
          "rule specifications (vlib/checks/c11_specs.py) with reading notes; reference translator; spec library; z3", "2/C11"),
 }
 CHECKS["C18"] = ("other", "B", "CrossHair symbolic execution of one inductive step of the real builder: bound parameters as unconstrained symbolic integers, random draws symbolic, every connected partition of a small board as pre-state (selected by a symbolic index)",
